@@ -108,13 +108,34 @@ void c13_hook(const char* name) noexcept {
 std::atomic<const char*> g_stuck_key {nullptr};
 std::atomic<int64_t>* g_ext_pending = nullptr;  // mix mode: external events still owed
 
+// Phases in which the controlling thread calls wake_one / wake_all / cancel itself: such a call must return
+// (a corrupted waiter list makes it spin for ever under the futex mutex), so the watchdog stays armed with this
+// default key for the whole phase.
+std::atomic<const char*> g_default_key {nullptr};
+struct CallsMustReturn {
+  CallsMustReturn() {
+    g_default_key.store("stuck:futex-call-never-returned", RLX);
+    g_stuck_key.store("stuck:futex-call-never-returned", RLX);
+    vf::progress();
+    vf::watchdog().arm(true);
+  }
+  ~CallsMustReturn() {
+    vf::watchdog().arm(false);
+    g_default_key.store(nullptr, RLX);
+    g_stuck_key.store(nullptr, RLX);
+  }
+};
+
 template <typename C>
 void wait_until(C&& cond, const char* stuck_key) {
-  g_stuck_key.store(stuck_key, RLX);
+  const char* dflt = g_default_key.load(RLX);
+  if (stuck_key != nullptr || dflt == nullptr) g_stuck_key.store(stuck_key, RLX);
+  vf::progress();
   vf::watchdog().arm(true);
   while (!cond()) vf::raw_sleep_us(50);
-  vf::watchdog().arm(false);
-  g_stuck_key.store(nullptr, RLX);
+  vf::progress();
+  if (dflt == nullptr) vf::watchdog().arm(false);
+  g_stuck_key.store(dflt, RLX);
 }
 
 ////////////////////////////////////////////////////////////////////////////////
@@ -834,6 +855,7 @@ void fw_check_box(const std::string& cfg, uint32_t concurrent) {
 
 // (a) a wait whose expected value does not match must not keep a deposit-box slot
 void probe_a() {
+  CallsMustReturn armed;
   FutexWorld s;
   s.seed = 0xa;
   s.W = 1;
@@ -893,6 +915,7 @@ Task<> probe_waiter(FrameTok, ProbeCtx* x, Futex* f, int i) {
 // (d) wake_one while the front waiter is being cancelled (canceller owns the node but has
 // not unlinked it yet) must still resume the other waiter
 void probe_d() {
+  CallsMustReturn armed;
   ProbeCtx x;
   Pool pool;
   pool.start({4}, false, 0);
@@ -934,6 +957,55 @@ void probe_d() {
   if (x.f.wake_all() != 0) {
     vf::violation("futex-wake_all-count-mismatch", "wake_all on an empty futex returned non-zero", "probe d");
   }
+  // second phase: the same window against wake_all, then new waiters reuse the slots: the list must stay sane
+  {
+    ProbeCtx y;
+    auto ga = ex->execute(probe_waiter, FrameTok {&y.frames}, &y, &y.f, 0);
+    wait_until([&] { return y.suspended.load(ACQ) == 1; }, nullptr);
+    auto gb = ex->execute(probe_waiter, FrameTok {&y.frames}, &y, &y.f, 1);
+    wait_until([&] { return y.suspended.load(ACQ) == 2; }, nullptr);
+    std::atomic<int> cret {-1};
+    y.gate.reset("cofutex:cancel_taken");
+    std::thread canceller2([&] {
+      vf::thread_begin(0xd, 2);
+      tl_gate = &y.gate;
+      cret.store(y.tok[1]() ? 1 : 0, REL);
+      tl_gate = nullptr;
+      vf::thread_end();
+    });
+    wait_until([&] { return y.gate.arrived.load(ACQ) == 1; }, "stuck:probe-gate-never-reached");
+    int ra = y.f.wake_all();  // owns and resumes waiter 0 only; waiter 1 belongs to the parked canceller
+    wait_until([&] { return ga.ready(); }, "stuck:futex-woken-waiter-never-ran");
+    y.gate.open.store(1, REL);
+    canceller2.join();
+    wait_until([&] { return gb.ready(); }, "stuck:futex-woken-waiter-never-ran");
+    pool.barrier();
+    if (ra != 1 || cret.load(ACQ) != 1) {
+      vf::violation("futex-wake_all-vs-cancel-in-flight-wrong-result",
+                    "wake_all racing a cancel that owns the front node: expected wake_all()=1 and cancel()=true",
+                    vf::fmt("wake_all()=%d cancel()=%d", ra, cret.load(ACQ)));
+    }
+    int total = 0;
+    for (int round = 0; round < 3; ++round) {  // arrivals reuse both slots; stale links would resurface here
+      auto h1 = ex->execute(probe_waiter, FrameTok {&y.frames}, &y, &y.f, 2);
+      auto h2 = ex->execute(probe_waiter, FrameTok {&y.frames}, &y, &y.f, 3);
+      int want = 4 + 2 * round;
+      wait_until([&] { return y.suspended.load(ACQ) == want; }, nullptr);
+      int rr = y.f.wake_all();
+      total += rr;
+      if (rr != 2) {
+        vf::violation("futex-wake_all-count-mismatch", "wake_all after a cancel/wake_all race did not wake exactly the two new waiters",
+                      vf::fmt("round %d wake_all()=%d", round, rr));
+        break;
+      }
+      wait_until([&] { return h1.ready() && h2.ready(); }, "stuck:futex-woken-waiter-never-ran");
+    }
+    pool.barrier();
+    if (y.f.wake_one() != 0) {
+      vf::violation("futex-wake-on-empty-list-returned-nonzero", "a node was still linked after every waiter of probe d had finished", "");
+    }
+    (void)total;
+  }
   VF_COUNT("obs:probe_d");
   pool.stop();
 }
@@ -966,6 +1038,7 @@ Task<> probe_c_waiter(FrameTok, ProbeCtx* x) {
   co_return;
 }
 void probe_c() {
+  CallsMustReturn armed;
   ProbeCtx x;
   Pool pool;
   pool.start({4}, false, 0);
@@ -1005,6 +1078,7 @@ void probe_c() {
 // (b) wake_all must not walk through a node after finish_released(node): a new waiter may
 // have re-emplaced the slot
 void probe_b() {
+  CallsMustReturn armed;
   static ProbeCtx* xp = nullptr;  // stays reachable when the defect is present (lost waiters keep pointing into it)
   xp = new ProbeCtx;
   ProbeCtx& x = *xp;
@@ -1093,6 +1167,7 @@ void run_solo_episode(uint64_t seed, uint64_t e) {
   auto* ex = s.pool.ex[0].get();
   std::string cfg = vf::fmt("solo e=%lu waiters=%d later=%d workers=%d policy[%s]", (unsigned long)e, N, extra, nw, pol.c_str());
   vf::watchdog().set_context(cfg);
+  CallsMustReturn armed;
   std::vector<::babylon::Future<void>> futs;
   std::vector<int> susp;  // indices of waiters the model knows to be suspended
   int started = 0;
@@ -1265,6 +1340,7 @@ void run_handoff_episode(uint64_t seed, uint64_t e) {
   pool.start({nw}, false, 0);
   std::string cfg = vf::fmt("handoff e=%lu rounds=%lu workers=%d policy[%s]", (unsigned long)e, (unsigned long)h->rounds, nw, pol.c_str());
   vf::watchdog().set_context(cfg);
+  CallsMustReturn armed;
   auto fut = pool.ex[0]->execute(handoff_waiter, FrameTok {&h->frames}, h.get(), static_cast<Executor*>(pool.ex[0].get()));
   uint64_t woke = 0;
   for (uint64_t i = 0; i < h->rounds && !vf::failed(); ++i) {
